@@ -1,6 +1,7 @@
 import Prism.Proofs.C18
 import Prism.Proofs.C18Body
 import Prism.Proofs.C18BodyJpeg
+import Prism.Proofs.C18BodyPngIcc
 import Prism.Proofs.C18BodyWebp
 
 #print axioms Prism.C18_pulled_bound
@@ -11,6 +12,7 @@ import Prism.Proofs.C18BodyWebp
 #print axioms Prism.C18_auto_within_64k
 #print axioms Prism.Png.C18_png_body_unread
 #print axioms Prism.Jpeg.C18_jpeg_body_unread
+#print axioms Prism.Png.C18_png_icc_body_unread
 #print axioms Prism.Webp.C18_webp_vp8_body_unread
 #print axioms Prism.Webp.C18_webp_vp8l_body_unread
 #print axioms Prism.Webp.C18_webp_vp8x_body_unread
